@@ -228,7 +228,7 @@ def c15(ctx, replay):
 
 @check("C20")
 def c20(ctx, replay):
-    wsconn_model(ctx, ["quick"] if ctx.quick() else ["quick", "thorough"])
+    wsconn_model(ctx, ["quick", "shutdown"] if ctx.quick() else ["quick", "shutdown", "thorough"])
     conc_campaign(ctx, 300 if ctx.quick() else 3000, SIG_C20)
     if not ctx.quick():
         repo_tests_traced(ctx, SIG_C20)
@@ -236,7 +236,7 @@ def c20(ctx, replay):
 
 @check("C06")
 def c06(ctx, replay):
-    wsconn_model(ctx, ["quick"] if ctx.quick() else ["quick", "thorough"])
+    wsconn_model(ctx, ["quick", "shutdown"] if ctx.quick() else ["quick", "shutdown", "thorough"])
     rows = ctx.path("close.ndjson")
     rec, _ = ctx.tlc("WSCloseRows", "Rows.cfg", env={"OUT": rows}, workers=4, name="close-decision-table")
     rep = ctx.drive("closetab", ["-rows", rows, "-seed", ctx.seed])
@@ -359,6 +359,17 @@ def c09(ctx, replay):
     ctx.extra["model_catches_deviation"] = caught
     rec, _ = ctx.tlc("WSConn", "WSConn.live.cfg", name="WSConn-liveness(Close terminates, all calls return; only the 5 s timers)", timeout=2400)
     ctx.count_model(rec)
+    # Close, CloseNow and the CloseRead goroutine racing (casClosing, closeMu, forceLocks, waitGoroutines) in the endpoint model:
+    # with the 5 s timers every call returns; with NO timer CloseNow returns and a closed connection unblocks every call
+    for n, what in (("shut-bounded", "Close+CloseNow+CloseRead: all return with the 5 s timers only (no 15 s backstop)"),
+                    ("shut-prompt", "Close+CloseNow+CloseRead: CloseNow returns and closed unblocks all calls with no timer at all")):
+        rec, _ = ctx.tlc("WSConn", "WSConn.%s.cfg" % n, name="WSConn-" + what, timeout=2400)
+        ctx.count_model(rec)
+    for n in ("CloseNowWaits", "BlockingCloseMu"):
+        rec, out = ctx.tlc("WSConn", "WSConn.dev-%s.cfg" % n, expect_ok=False, name="WSConn-dev-" + n, timeout=2400)
+        caught["WSConn-" + n] = "was violated" in out
+        if not caught["WSConn-" + n]:
+            raise Infra("model regression: %s no longer violates its liveness property" % n)
     # (B) adversary scripts x local states against the real code with real timers
     rows = ctx.path("cb.ndjson")
     ctx.tlc("WSCloseBoundRows", "CloseBoundRows.cfg", env={"OUT": rows}, workers=2, name="close-bound-table")
@@ -543,6 +554,16 @@ def c02(ctx, replay):
 def c18(ctx, replay):
     rec, _ = ctx.tlc("WSNetConn", "WSNetConn.cfg", name="netconn-adapter-model")
     ctx.count_model(rec)
+    # how a deadline expires: the callback goroutine against SetDeadline (strict design + the two pre-fix behaviours)
+    rec, _ = ctx.tlc("WSDeadline", "WSDeadline.cfg", workers=2, name="deadline-expiry-vs-reset")
+    ctx.count_model(rec)
+    caught = {}
+    for d in ("stale", "nomutex"):
+        rec, out = ctx.tlc("WSDeadline", "WSDeadline.dev-%s.cfg" % d, workers=2, expect_ok=False, name="deadline-expiry-dev-" + d)
+        caught[d] = "is violated" in out
+        if not caught[d]:
+            raise Infra("model regression: WSDeadline deviation %s is no longer caught" % d)
+    ctx.extra["model_catches_deviation"] = caught
     rows = ctx.path("nc.ndjson")
     ctx.tlc("WSNetConnRows", "WSNetConn.cfg", env={"OUT": rows, "N": 3 if ctx.quick() else 4}, workers=4, name="netconn-behaviours", timeout=1800)
     args = ["-rows", rows, "-seed", ctx.seed]
